@@ -317,6 +317,9 @@ def apply_edit(ds: xr.Dataset, built: G.Built, state: dict, e: dict) -> xr.Datas
         names = [n for n in e['names'] if n in ds.coords and n not in ds.dims]
         return ds.reset_coords(names)
     if op == 'chunk':
+        if e.get('size'):
+            # several small chunks along every dimension (the bytes of the values are still their C-order bytes)
+            return ds.chunk({d: e['size'] for d in ds.dims})
         return ds.chunk()
     # identity edits: the content of every variable stays what it was
     if op == 'copy':
